@@ -69,6 +69,26 @@ func registerHarnessExtensions() {
 			m["boom"] = 1 // assignment to entry in nil map: a genuine Go runtime panic
 			return object.NULL
 		}}))
+	// library-style extensions that use their argument slice as scratch space (sort it, normalise it): the caller's
+	// arrays must not be affected (C06)
+	must(object.CreateFunction(object.Extension{Name: "verif_scramble", MinArgs: 0, MaxArgs: -1,
+		Callback: func(_ any, _ string, args []object.Object) object.Object {
+			n := len(args)
+			for i := range args {
+				args[i] = object.Integer{Value: -1}
+			}
+			return object.Integer{Value: int64(n)}
+		}}))
+	must(object.CreateFunction(object.Extension{Name: "verif_fsum", MinArgs: 1, MaxArgs: -1, ArgTypes: []object.Type{object.FLOAT, object.FLOAT, object.FLOAT, object.FLOAT, object.FLOAT, object.FLOAT, object.FLOAT, object.FLOAT, object.FLOAT, object.FLOAT, object.FLOAT, object.FLOAT},
+		Callback: func(_ any, _ string, args []object.Object) object.Object {
+			t := 0.0
+			for _, a := range args {
+				if f, ok := a.(object.Float); ok {
+					t += f.Value
+				}
+			}
+			return object.Float{Value: t}
+		}}))
 	must(object.CreateFunction(object.Extension{Name: "verif_cancel", MinArgs: 0, MaxArgs: 0, DontCache: true,
 		Callback: func(st any, _ string, _ []object.Object) object.Object {
 			if s, ok := st.(*eval.State); ok && s.Cancel != nil {
